@@ -60,10 +60,14 @@ def handle (j : Json) : Json :=
       let name := (t.splitOn "(").headD ""
       let failed := (t.splitOn "=").length > 1 && !(t.endsWith ")")
       match name with
-      | "open" => if (inside.splitOn "O_APPEND").length > 1 then .openAppend
-                  else if inside.startsWith "tmp" then .openTmp
-                  else if (inside.splitOn "O_WRONLY").length > 1 || (inside.splitOn "O_RDWR").length > 1 || (inside.splitOn "O_TRUNC").length > 1 then .other
-                  else .openRO (objOf inside)
+      | "open" =>
+        let has (f : String) : Bool := (inside.splitOn f).length > 1
+        let writable := has "O_WRONLY" || has "O_RDWR" || has "O_TRUNC"
+        if has "O_APPEND" then .openAppend
+        else if inside.startsWith "tmp" then (if has "O_TRUNC" || has "O_EXCL" then .openTmp else .openBad)   -- a stale temporary file must not shine through
+        else if writable && objOf inside == .log then .openBad                                              -- the log writable without O_APPEND, or truncated
+        else if writable then .other
+        else .openRO (objOf inside)
       | "flock" => if (inside.splitOn "LOCK_UN").length > 1 then .flockUn else .flockEx (!failed)
       | "read" | "pread64" => .read (objOf inside)
       | "write" => .write (objOf inside)
